@@ -113,6 +113,27 @@ pub fn find_case(rng: &mut gen::R, kinds: &[Kind], ev: &Evaluator, rep: &mut Rep
     if p.in_check(p.wtm) {
         rep.count("cases_with_root_in_check", 1);
     }
+    // move counters as a real game would have them: the recorded position occurred first (sometimes right after an
+    // irreversible move: clock 0), the root one or two plies later, so that the recorded position recurs inside the
+    // search with a clock equal to the distance between its two occurrences
+    let (mut p, mut recorded) = (p, recorded);
+    if rng.gen_bool(0.6) {
+        let h0 = [0u64, 0, 0, 1, 3, 10][rng.gen_range(0..6)];
+        let n = rng.gen_range(2..80u64);
+        recorded.half = h0;
+        recorded.full = n;
+        if recorded.wtm == p.wtm {
+            p.half = h0 + 2;
+            p.full = n + 1;
+        } else {
+            p.half = h0 + 1;
+            p.full = if recorded.wtm { n } else { n + 1 };
+        }
+        rep.count("cases_with_game_consistent_counters", 1);
+        if h0 == 0 {
+            rep.count("cases_recorded_right_after_an_irreversible_move", 1);
+        }
+    }
     Some(Case { root: p, recorded, m1, n2, spoiled })
 }
 
